@@ -3,6 +3,7 @@ C01 capstones, second part (HEADER REWRITTEN AT THE END)
 -/
 import TLX.Lemmas.Capstone2
 set_option linter.unusedSimpArgs false
+set_option linter.unusedVariables false
 namespace TLX.Props.C01Capstone
 open TLX TLX.Cipher TLX.RecordLayer TLX.Spec.TlsSender TLX.Props.C01 TLX.Lemmas.Pipeline TLX.Spec.TlsConnection
 open TLX.Lemmas.Capstone TLX.Lemmas.Capstone2 TLX.Props.C01Pipeline TLX.Spec.TlsFraming TLX.Spec.TlsFragmented13
@@ -502,6 +503,124 @@ theorem tls13_fragmented_partial (H : Crypto.Prims) (P : Prims) (L : SealLaws P)
 namespace Ex2
 open TLX.Props.C01Pipeline.Ex2 TLX.Props.C01.Ex TLX.Props.C01Capstone.Ex
 
+-- ---------------------------------------------------------------------- 1. packet order ⇒ release order, concretely
+/-- the capture `cap0` of `Ex.tls12_instance` has alternating first flights: the ClientHello (two segments), then the
+    ServerHello flight (one segment) -/
+theorem firstFlights0 : FirstFlights infoCap connCap [rC 0] [rS 0, rS 1] where
+  split := ⟨pktsCap.take 2, (pktsCap.drop 2).take 1, pktsCap.drop 3, by decide +kernel, by decide +kernel, by decide +kernel,
+    ⟨isnOf false, by
+      have hcut : IsCut [rC 0].flatten [(rC 0).take 20, (rC 0).drop 20] := ⟨by decide +kernel, by decide +kernel⟩
+      have e : (dirSegs infoCap connCap.server false (pktsCap.take 2)).map Props.C05.wire
+          = segsOf (isnOf false) 0 [(rC 0).take 20, (rC 0).drop 20] := by decide +kernel
+      unfold InOrder; rw [e]; exact Delivers.cut _ hcut⟩,
+    ⟨isnOf true, by
+      have hcut : IsCut [rS 0, rS 1].flatten [rS 0 ++ rS 1] := ⟨by decide +kernel, by decide +kernel⟩
+      have e : (dirSegs infoCap connCap.server true ((pktsCap.drop 2).take 1)).map Props.C05.wire
+          = segsOf (isnOf true) 0 [rS 0 ++ rS 1] := by decide +kernel
+      unfold InOrder; rw [e]; exact Delivers.cut _ hcut⟩⟩
+  wholeA := by decide +kernel
+  wholeB := by decide +kernel
+  lenA := by decide +kernel
+  lenB := by decide +kernel
+  neB := by decide
+
+example : Causal12 (connRecs infoCap connCap) :=
+  causal12_of_packet_order infoCap connCap _ _ firstFlights0 (by decide) (by decide +kernel)
+
+-- a WEAKER packet-order condition is not enough: "every byte of the ClientHello is captured before the first server
+-- segment" holds here too, and each direction is in order, but the segment that completes the ClientHello also carries
+-- the first 3 bytes of the client's next record, so nothing is released until after the ServerHello: all is lost …
+example : outOf ([(false, rC 0 ++ (rC 1).take 3, 0), (true, rS 0 ++ rS 1, 0),
+    (false, (rC 1).drop 3 ++ rC 2 ++ rC 3, 53)] ++ cap0.drop 4) = some [] := by decide +kernel
+-- … whereas with the flight boundary on a segment boundary (`FirstFlights`) everything is exported
+example : outOf ([(false, rC 0, 0), (true, rS 0 ++ rS 1, 0), (false, rC 1 ++ rC 2 ++ rC 3, 50)] ++ cap0.drop 4)
+    = some [(1003, hi), (1005, k16.take 8), (1007, k16.drop 8)] := by decide +kernel
+
+-- ---------------------------------------------------------------------- 2. a displaced capture
+theorem noEarly_of_head (isn : Nat) (segs : List Reassembly.Seg)
+    (h : ∀ s, segs.head? = some s → s.seq = isn % 2 ^ 32) : Props.C05.NoEarlyDelivery isn segs := by
+  intro pre post hsplit hno
+  cases pre with
+  | nil => rfl
+  | cons s t => exact absurd (h s (by rw [hsplit]; rfl)) (hno s (List.mem_cons_self ..))
+
+/-- `cap0` with the client's False-Start record captured BEFORE the segment that carries ClientKeyExchange / CCS /
+    Finished (displacement by one position), and retransmitted later -/
+def capD : List (Bool × Bytes × Nat) :=
+  [cap0.getD 0 default, cap0.getD 1 default, cap0.getD 2 default, cap0.getD 4 default, cap0.getD 3 default] ++ cap0.drop 5
+def infoD := infoOf capD
+def connD := connOf capD
+
+theorem deliveredD : DeliveredDisplaced infoD connD (t0.stream Cipher.Toy.prims Cipher.Toy.laws cls0 (legacySnd k0)) := by
+  intro d
+  cases d
+  · refine ⟨⟨1, isnOf false, ?_, noEarly_of_head _ _ (by decide +kernel)⟩, by decide +kernel⟩
+    have hcut : IsCut (t0.stream Cipher.Toy.prims Cipher.Toy.laws cls0 (legacySnd k0) false) (chunksOf false) :=
+      ⟨by decide +kernel, by decide +kernel⟩
+    have h0 := Delivers.cut (k := 1) (isn := isnOf false) (chunksOf false) hcut
+    let w := segsOf (isnOf false) 0 (chunksOf false)
+    have e0 : segsOf (isnOf false) 0 (chunksOf false)
+        = w.take 2 ++ ([w.getD 2 (0, [])] ++ w.getD 3 (0, []) :: w.drop 4) := by decide +kernel
+    rw [e0] at h0
+    have h1 := Delivers.displace _ _ h0 (Displaced.earlier (w.take 2) [w.getD 2 (0, [])] (w.drop 4) (w.getD 3 (0, [])) (by decide))
+    have h2 := Delivers.dup (w.take 2) [w.getD 2 (0, [])] (w.drop 4) (w.getD 3 (0, [])) h1
+    have e2 : (dirSegs infoD connD.server false connD.pkts).map Props.C05.wire
+        = w.take 2 ++ w.getD 3 (0, []) :: ([w.getD 2 (0, [])] ++ w.getD 3 (0, []) :: w.drop 4) := by decide +kernel
+    rw [e2]; exact h2
+  · refine ⟨⟨0, isnOf true, ?_, noEarly_of_head _ _ (by decide +kernel)⟩, by decide +kernel⟩
+    have hcut : IsCut (t0.stream Cipher.Toy.prims Cipher.Toy.laws cls0 (legacySnd k0) true) (chunksOf true) :=
+      ⟨by decide +kernel, by decide +kernel⟩
+    have e2 : (dirSegs infoD connD.server true connD.pkts).map Props.C05.wire
+        = segsOf (isnOf true) 0 (chunksOf true) := by decide +kernel
+    rw [e2]; exact Delivers.cut _ hcut
+
+theorem causalD : Causal12 (connRecs infoD connD) :=
+  ⟨(connRecs infoD connD).take 1, (connRecs infoD connD).drop 1, (List.take_append_drop 1 _).symm,
+    by decide +kernel, by decide +kernel,
+    ((connRecs infoD connD).drop 1).headD (⟨[], []⟩, false), ((connRecs infoD connD).drop 1).tail,
+    by decide +kernel, by decide +kernel⟩
+
+/-- every hypothesis of `tls12_connection_exact_displaced` holds for the displaced capture -/
+theorem tls12_displaced_instance :
+    ∃ frames, Pipeline.connOut hashes Cipher.Toy.prims infoD connD kl0
+        = some (frames.map (Pipeline.addressed connD.opts connD)) ∧
+      Spec.reassemble frames = some (hi, k16) ∧ TimesFromCarriers infoD connD frames := by
+  have hres : CipherSuite.resolve (Bytes.beNat t0.sh.cipherSuite) = some ps0 := by decide +kernel
+  have hargs : Pipeline.suiteArgs ps0 = some a0 := some_getD _ _ (by decide +kernel)
+  have hfound : (Keylog.findSessionSecrets kl0 (Pipeline.natsOfBytes t0.ch.random)).filter
+      (fun k => k.label == Keylog.s_CLIENT_RANDOM || k.label == Keylog.s_RSA) = f0 :: [] := by decide +kernel
+  have hsec : Pipeline.secretsOf false (f0 :: []) = some secrets0 := by decide +kernel
+  have hgen : KeySchedule.generateKeys hashes (Pipeline.ksVersion .tls12) a0.ks secrets0 t0.ch.random t0.sh.random
+      = .ok (some (.legacy k0)) :=
+    gen_eq (KeySchedule.generateKeys hashes .tls12 a0.ks secrets0 cr0 sr0) k0 (by decide +kernel)
+  have hcls : classOf a0.bulk (Pipeline.rlVersion .tls12)
+      (Session.extGet ((t0.sh.extensions.getD []).map extPair) [0x00, 0x16]).isSome a0.tagLen = some cls0 := by
+    decide +kernel
+  have hmac : 0 < (KeySchedule.macSuite hashes a0.ks.mac).outLen := by decide +kernel
+  have hck : KeyMatOk cls0 k0.clientKey k0.clientIv := by decide +kernel
+  have hsk : KeyMatOk cls0 k0.serverKey k0.serverIv := by decide +kernel
+  have hokc : ∀ e ∈ t0.cEvs, EvOk1 cls0 (KeySchedule.macSuite hashes a0.ks.mac).outLen e := by decide +kernel
+  have hoks : ∀ e ∈ t0.sEvs, EvOk1 cls0 (KeySchedule.macSuite hashes a0.ks.mac).outLen e := by decide +kernel
+  have hwr : ∀ d, ∀ r ∈ t0.records Cipher.Toy.prims Cipher.Toy.laws cls0 (legacySnd k0) d, WholeRecord r := by
+    intro d; cases d <;> decide +kernel
+  have hlen : t0.cEvs.length + t0.sEvs.length ≤ seqLimit := by decide +kernel
+  have hsc : Script12 t0.cEvs := ⟨[[16, 0, 0, 2, 9, 9]], _, rfl, by decide, by
+    intro e he
+    simp only [List.mem_cons, List.mem_nil_iff, or_false] at he
+    rcases he with rfl | rfl | rfl <;> exact ⟨_, _, _, rfl, by decide⟩⟩
+  have hss : Script12 t0.sEvs := ⟨[[11, 0, 0, 3, 1, 2, 3, 14, 0, 0, 0]], _, rfl, by decide, by
+    intro e he
+    simp only [List.mem_cons, List.mem_nil_iff, or_false] at he
+    rcases he with rfl | rfl <;> exact ⟨_, _, _, rfl, by decide⟩⟩
+  have h := tls12_connection_exact_displaced hashes Cipher.Toy.prims Cipher.Toy.laws kl0 infoD connD rfl t0
+    (by decide) (by decide) rfl rfl rfl rfl .tls12 (by decide) (by unfold Negotiated; decide)
+    ps0 hres a0 hargs f0 [] hfound secrets0 hsec k0 hgen cls0 hcls hmac hck hsk hsc hss hokc hoks hwr hlen
+    deliveredD causalD
+  have e : (Spec.TlsConnection.plainOf t0.cEvs, Spec.TlsConnection.plainOf t0.sEvs) = (hi, k16) := by decide
+  rw [e] at h
+  exact h
+
+-- ---------------------------------------------------------------------- 3. fragmented TLS 1.3 flights
 /-- the server's handshake messages: EncryptedExtensions, a Certificate whose body contains 00 ff ff ff, Finished -/
 def flightMsgs : List (UInt8 × Bytes) := [(8, [0, 0]), (11, [9, 9, 0, 0xff, 0xff, 0xff, 7, 7]), C01Pipeline.Ex.fin]
 example : hsBytes flightMsgs = flightBytes := by decide
